@@ -20,8 +20,9 @@ import (
 )
 
 type readerClientR struct {
-	Consume  func(ctx context.Context, r io.Reader, pattern int, tag string) (Digest, error)
-	ConsumeR func(ctx context.Context, r io.Reader, pattern int, tag string) (Digest, error) `retry:"true" rpc_method:"R.Consume"`
+	ConsumeAsync func(ctx context.Context, r io.Reader, tag string) (<-chan int64, error)
+	Consume      func(ctx context.Context, r io.Reader, pattern int, tag string) (Digest, error)
+	ConsumeR     func(ctx context.Context, r io.Reader, pattern int, tag string) (Digest, error) `retry:"true" rpc_method:"R.Consume"`
 }
 
 // c20Special: reader parameters combined with other features of the client.
@@ -101,6 +102,84 @@ func c20Special(sc core.Scenario, r *core.R) {
 				return
 			}
 			r.Obs("reader_calls", 1)
+		}
+	case "async-consumer":
+		// the method returns a channel immediately and consumes the reader afterwards (ws only)
+		for i, ln := range []int{0, 11, 70000, 1 << 20} {
+			data := payload(ln, i%4, rng, byte(i+3))
+			ch, err := cl.ConsumeAsync(bg, bytes.NewReader(data), fmt.Sprintf("a%d", i))
+			if err != nil || ch == nil {
+				r.Violate("reader-call-failed", "channel-returning method with a reader parameter (len %d): %v", ln, err)
+				continue
+			}
+			var vals []int64
+			fin := make(chan struct{})
+			go func() {
+				for v := range ch {
+					vals = append(vals, v)
+				}
+				close(fin)
+			}()
+			if !core.WaitCh(fin, 2*core.Grace) {
+				r.Violate("reader-call-hang", "channel-returning method consuming its reader parameter in the background (len %d) never finished", ln)
+				break
+			}
+			sum := sha256.Sum256(data)
+			var want int64
+			for _, b := range sum[:7] {
+				want = want<<8 | int64(b)
+			}
+			if len(vals) != 2 || vals[0] != int64(ln) || vals[1] != want {
+				r.Violate("reader-bytes-differ", "channel-returning method consuming its reader parameter after it returned (len %d): handler reported %v (bytes, digest[, -1 = read error]), expected [%d %d]", ln, vals, ln, want)
+			}
+			r.Obs("reader_calls", 1)
+		}
+	case "two-clients":
+		// a second server with its own upload endpoint and a client for it, created after the first client
+		readerHandler2, readerOpt2 := httpio.ReaderParamDecoder()
+		rpc2 := jsonrpc.NewServer(readerOpt2)
+		rpc2.Register("R", ReaderSvc{})
+		m2 := mux.NewRouter()
+		m2.Handle("/rpc/v0", rpc2)
+		m2.Handle("/rpc/streams/v0/push/{uuid}", http.HandlerFunc(readerHandler2))
+		ts2 := httptest.NewServer(m2)
+		defer func() {
+			fin := make(chan struct{})
+			go func() { ts2.CloseClientConnections(); ts2.Close(); close(fin) }()
+			select {
+			case <-fin:
+			case <-time.After(2 * time.Second):
+			}
+		}()
+		base2 := ts2.Listener.Addr().String()
+		var cl2 readerClientR
+		closer2, err := jsonrpc.NewMergeClient(context.Background(), "http://"+base2+"/rpc/v0", "R", []interface{}{&cl2}, nil, httpio.ReaderParamEncoder("http://"+base2+"/rpc/streams/v0/push"))
+		if err != nil {
+			r.Inconclusive("client 2: %v", err)
+			return
+		}
+		defer closer2()
+		for i := 0; i < 3; i++ {
+			for ci, c := range []*readerClientR{&cl, &cl2} {
+				data := payload(3000+i, 0, rng, byte(10*i+ci))
+				type res struct {
+					d   Digest
+					err error
+				}
+				fin := make(chan res, 1)
+				go func() {
+					d, err := c.Consume(bg, bytes.NewReader(data), pReadAll, fmt.Sprintf("t%d-%d", i, ci))
+					fin <- res{d, err}
+				}()
+				select {
+				case x := <-fin:
+					check(fmt.Sprintf("two clients with their own upload endpoints in one process, call %d on client %d", i, ci+1), data, x.d, x.err)
+				case <-time.After(core.Grace):
+					r.Violate("reader-call-hang", "two clients with their own upload endpoints in one process: a reader-carrying call on client %d never returned", ci+1)
+					return
+				}
+				r.Obs("reader_calls", 1)
+			}
 		}
 	case "close-live":
 		pr, pw := io.Pipe()
